@@ -64,12 +64,12 @@ func runGCSession(r *vrep.Report, seed int64, id int, strictOn bool, calls []gcC
 	for _, k := range keys {
 		b.free[k] = true
 	}
-	shapes := append(append([]string(nil), rawShapes...), "kill-2pc", "kill-pess")
+	shapes := append(append([]string(nil), rawShapes...), "kill-2pc", "kill-pess", "kill-pess-multi", "pess-multi-primary")
 	addTxns := func(n int) error {
 		for i := 0; i < n; i++ {
 			shape := shapes[rng.Intn(len(shapes))]
 			if b.forceStart != 0 {
-				shape = []string{"pending", "noprimary", "pess-half", "pess-pending"}[rng.Intn(4)]
+				shape = []string{"pending", "noprimary", "pess-half", "pess-pending", "pess-multi-primary"}[rng.Intn(5)]
 			}
 			if _, err := b.add(shape, 1+rng.Intn(4), rng.Intn(3) == 0); err != nil {
 				return err
@@ -257,6 +257,7 @@ func runGCSession(r *vrep.Report, seed int64, id int, strictOn bool, calls []gcC
 			}
 		} else {
 			r.Count("calls_returning_nil", 1)
+			multiPrimaryCoverage(r, u, before, eff, true)
 			r.Count("locks_at_or_below_safepoint_before_successful_call", old)
 			if eff > pdTxnSP {
 				pdTxnSP = eff
@@ -324,4 +325,6 @@ func TestVerifC14GCSession(t *testing.T) {
 	r.Floor("calls_returning_nil", 30)
 	r.Floor("calls_returning_error", 5)
 	r.Floor("successful_calls_to_an_earlier_safepoint_with_locks_to_resolve", 8)
+	r.Floor("multi_primary:pessimistic_txns_with_several_primaries", 5)
+	r.Floor("multi_primary:self_primary_lock_after_first_lock_of_txn_in_region:pessimistic-other-primary", 1)
 }
